@@ -94,7 +94,7 @@ FloatOfText(s) ==
       ip == IF dp = 0 THEN b ELSE SubSeq(b, 1, dp - 1)
       fp == IF dp = 0 THEN <<>> ELSE SubSeq(b, dp + 1, Len(b))
       f  == Len(fp)
-  IN IF ~IsDecText(s) \/ Len(ip) + f > 8 \/ f > 6 THEN VUnspec
+  IN IF ~IsDecText(s) \/ Len(ip) + f > 9 \/ f > 9 THEN VUnspec
      ELSE LET num == DigitsVal(ip \o fp, 1, 0) IN
           IF num % Pow5(f) # 0 THEN VUnspec
           ELSE MkFlt((IF neg THEN -1 ELSE 1) * (num \div Pow5(f)), f)
